@@ -14,7 +14,7 @@ func c01SeqJobs(tier string) []*SeqJob {
 	for _, v := range vals {
 		alphabet = append(alphabet, fmt.Sprintf("inc %d", v))
 	}
-	alphabet = append(alphabet, "pass")
+	alphabet = append(alphabet, "pass", "snapshot")
 	depth := tierInt(tier, 6, 8)
 	exec := func(cached bool) func(hist []int) (string, string, string, int) {
 		return func(hist []int) (cl, det, key string, steps int) {
@@ -64,6 +64,10 @@ func c01SeqJobs(tier string) []*SeqJob {
 						}
 						pending += v
 						total += v
+					} else if alphabet[op] == "snapshot" {
+						// looking at a reporting scope (every scope offers Snapshot) must not consume anything
+						takeSnapshot(root)
+						steps++
 					} else if cl, d := pass(); cl != "" {
 						return cl, d
 					}
@@ -108,7 +112,7 @@ func c02SeqJobs(tier string) []*SeqJob {
 	for _, v := range vals {
 		alphabet = append(alphabet, fmt.Sprintf("upd %#x", math.Float64bits(v)))
 	}
-	alphabet = append(alphabet, "pass")
+	alphabet = append(alphabet, "pass", "snapshot")
 	depth := tierInt(tier, 4, 5)
 	exec := func(cached bool) func(hist []int) (string, string, string, int) {
 		return func(hist []int) (cl, det, key string, steps int) {
@@ -152,6 +156,9 @@ func c02SeqJobs(tier string) []*SeqJob {
 						steps++
 						dirty, last = true, math.Float64bits(vals[op])
 						nupd++
+					} else if alphabet[op] == "snapshot" {
+						takeSnapshot(root)
+						steps++
 					} else if cl, d := pass(); cl != "" {
 						return cl, d
 					}
@@ -187,4 +194,11 @@ func c02SeqJobs(tier string) []*SeqJob {
 		return "", ""
 	}
 	return []*SeqJob{j}
+}
+
+// takeSnapshot calls Snapshot on a scope that reports to a reporter (the scope type implements TestScope).
+func takeSnapshot(s tally.Scope) {
+	if ts, ok := s.(interface{ Snapshot() tally.Snapshot }); ok {
+		_ = ts.Snapshot()
+	}
 }
